@@ -1,7 +1,10 @@
 #!/bin/sh
-# Run every stored seeded change against the check of its property (quick tier); one line per seed.
+# Run every stored seeded change against the check of its property (plus any other check its meta.json names),
+# quick tier; one line per (seed, check).  Output: seed=<name> check=<ID> tier=quick exit=<0|1|2>
 cd /verif
 for d in seeded/*/; do
   n=$(basename "$d"); c=${n%%-*}
-  tools/seed_verify.sh "$d" "$n" "$c" 2>&1 | grep -E "check=|PATCH-FAILED|demo_without" | cut -c1-220
+  base=$(python3 -c "import json;print(json.load(open('$d/meta.json')).get('base_commit','5b8bfa1'))")
+  checks=$(python3 -c "import json;m=json.load(open('$d/meta.json'));print(' '.join(sorted(set(['$c'])|set(m.get('detected_by',{})))))")
+  SEED_BASE=$base tools/seed_verify.sh "$d" "$n" $checks 2>&1 | grep -E "check=|PATCH-FAILED|demo_without" | cut -c1-200
 done
